@@ -4,6 +4,7 @@
 #include "scen_c16.h"
 #include "scen_c17.h"
 #include "scen_c11.h"
+#include "scen_c08.h"
 
 int main(int argc, char **argv) {
     if (argc < 5) { fprintf(stderr, "usage: tpmdrv Cxx seed tier trace [extra]\n"); return 2; }
@@ -19,6 +20,7 @@ int main(int argc, char **argv) {
     if (!strcmp(prop, "C16")) scen_c16(thorough ? 400 : 40, thorough ? 120 : 50);
     else if (!strcmp(prop, "C17")) scen_c17(thorough ? 60 : 8, thorough ? 400 : 150);
     else if (!strcmp(prop, "C11")) scen_c11(thorough ? 300 : 30, thorough ? 200 : 80);
+    else if (!strcmp(prop, "C08")) scen_c08(thorough ? 400 : 40, thorough ? 150 : 60);
     else { fprintf(stderr, "no scenario for %s\n", prop); return 2; }
     TPMLIB_Terminate();
     tr("end cmds=%ld ok=%ld faults=%ld", g_n_cmds, g_n_ok, g_fault_fired);
